@@ -214,6 +214,20 @@ def generate(repo: Path, outdir: Path) -> bool:
     def b(x: bool) -> str:
         return "true" if x else "false"
 
+    # Simulation.default: a model that cannot be evaluated at its initial state (ZeroDivisionError) is replaced by its
+    # NaN-valued copy before anything else is asked of it
+    sim_t = ast.parse((repo / "src/mxlpy/simulation.py").read_text())
+    dflt = find_function(sim_t, "default", cls="Simulation")
+    tries = [n for n in body_of(dflt) if isinstance(n, ast.Try)]
+    survives = (len(tries) == 1 and body_of(dflt)[0] is tries[0]
+                and [ast.unparse(x) for x in tries[0].body] == ["model.get_parameter_values()"]
+                and len(tries[0].handlers) == 1 and ast.unparse(tries[0].handlers[0].type) == "ZeroDivisionError"
+                and [ast.unparse(x) for x in tries[0].handlers[0].body] == ["model = _nan_valued_copy(model)"])
+    workers_catch = all(
+        any(isinstance(h.type, ast.Name) and h.type.id == "ZeroDivisionError" and ast.unparse(h.body[0]) == "res = Result(Exception())"
+            for t in ast.walk(top_function(scan_t, w)) if isinstance(t, ast.Try) for h in t.handlers)
+        for w in ("_steady_state_worker", "_time_course_worker", "_protocol_worker", "_protocol_time_course_worker"))
+
     out = [HEADER.format(src=f"{SCAN}, {MC}, {PAR}", tr="c09.py"), "namespace Mxl.Generated.C09\n",
            "inductive RowStep where\n  | copy | updVars | updPars | call\nderiving DecidableEq, Repr\n",
            "inductive Container where\n  | positional | byLabel\nderiving DecidableEq, Repr\n",
@@ -227,6 +241,10 @@ def generate(repo: Path, outdir: Path) -> bool:
            f"def seqIsMap : Bool := {b(pf['seqIsMap'])}\n",
            f"def appendInOrder : Bool := {b(pf['appendInOrder'])}\n",
            f"def timeoutSkipsRow : Bool := {b(pf['timeoutSkipsRow'])}\n",
+           "/-- every scan worker turns a `ZeroDivisionError` of the simulator into a failed result (`guardZeroDiv`) -/\n"
+           f"def workersCatchZeroDivision : Bool := {b(workers_catch)}\n",
+           "/-- `Simulation.default` does not raise for a model that cannot be evaluated at its initial state -/\n"
+           f"def placeholderSurvivesZeroDivision : Bool := {b(survives)}\n",
            "def drivers : List Driver := ["]
     rows = []
     for d in drivers:
